@@ -1045,6 +1045,11 @@ class ParseUniq:
             blocknode=blocknode,
         )
 
+    def create_syntaxhighlight(self, _name, vlist, inner, xopts):
+        # not through the tag extension: it wraps the body in <source> and parses that again,
+        # so a body containing '</source>' was cut there and the rest read as markup
+        return self.create_source("source", vlist, inner, xopts)
+
     def create_ref(self, _name, vlist, inner, xopts):
         expander = xopts.expander
         if expander is not None and inner:
